@@ -78,6 +78,19 @@ CLAIMED += [
               "(refs = live arena values, memory released exactly once at zero, remove-on-drop file removed exactly then, needs-drop value dropped once) and its state graph "
               "is replayed on real sync/unsync arenas (Vec/anon/file); every release event of the sequential suite is judged (own extent once, detached releases nothing, owned = "
               "borrowed); clone/drop on different threads is model-checked and replayed under the controlled scheduler (freed once, no access after free)."),
+    dict(property_id="C14", engine="small", technique="TLA+ spec (Buffer.tla) model-checked with TLC + edge-cover and random drivers on real BytesRefMut/BytesMut + TLC trace validation (TraceBuffer)",
+         design_ref="6 C14", note="Trusted: TLC, dbutils::leb128 (only length/bounds/round-trip of varints are checked), std's to_*_bytes, the harness's logging of the whole arena's bytes. Scope: capacities <= 13 in the model, all 12 integer types x be/le/ne x every fill level on the code.",
+         text="Buffer.tla models the write cursor (values as byte sequences, byte order = reversal); every state/transition is checked for bounds, len, stored bytes, nothing "
+              "outside touched, set_len zero-fill, align_to alignment, round trips; ~1800 drivers (TLC edge cover + all methods x fill levels + random walks) run on fresh, "
+              "aligned and recycled buffers of both handle kinds, flavours and backends, dev + release; TraceBuffer recomputes the expected bytes from the logged arguments."),
+    dict(property_id="C15", engine="small", technique="TLA+ spec (Readers.tla, width-parametric) model-checked with TLC + reader sweeps on real arenas (dev + release) + TLC trace validation (TraceReaders)",
+         design_ref="6 C15", note="Trusted: TLC, dbutils::leb128 decode fidelity, the harness's logging. usize is modelled at width 0..255 / 0..127 so that wrap-around is explorable; on the code offsets include usize::MAX-k and values around 2^32 / 2^63.",
+         text="Readers.tla decides Ok iff offset + SIZE <= allocated without wrap, varint windows below allocated(), slice lengths; every reader x offset 0..cap+16 and extremes x 6 fill states "
+              "runs in checked and unchecked builds; TraceReaders decodes the logged window by reversal and compares."),
+    dict(property_id="C19", engine="small", technique="TLA+ spec (Checksum.tla: the page loop as actions) model-checked with TLC + recording checksummer on real arenas + TLC trace validation (TraceChecksum)",
+         design_ref="6 C19", note="Trusted: TLC, crc32fast, the recording FNV-1a checksummer of the harness. Model page sizes 1, 4, 7; code page size 4096 with lengths around every page multiple.",
+         text="Checksum.tla: the chunk list is an in-order tiling of [reserved, allocated) at every step and on termination; on the code a recording BuildChecksumer logs every update "
+              "(offset, length) and TraceChecksum checks tiling and equality with the one-shot digest for Crc32 and an order-sensitive digest."),
 ]
 
 NOT_YET = "check not built yet in this round (construction in progress; see DESIGN.md section 11)"
@@ -114,6 +127,8 @@ def main():
         "engines": [
             {"name": "sync", "path": "lib/eng_sync.py", "serves_properties": ["C02", "C07", "C12"],
              "kind_free_text": "ArenaSync.tla (one action per atomic access of sync.rs, byte-exact memory) + MCSync; harness/src/conc.rs controlled scheduler; TraceSyncProp / TraceSyncImpl"},
+            {"name": "small", "path": "lib/check_small.py", "serves_properties": ["C14", "C15", "C19"],
+             "kind_free_text": "Buffer / Readers / Checksum.tla + MC wrappers; harness_small (rvs buf|rd|ck); TraceBuffer / TraceReaders / TraceChecksum"},
             {"name": "handles", "path": "lib/check_handles.py", "serves_properties": ["C13"],
              "kind_free_text": "Handles.tla + MCHandles; harness handles subcommand; TraceHandles; plus C13 predicates of ArenaProps (seq) and teardown scenarios (sync)"},
             {"name": "crash", "path": "lib/check_crash.py", "serves_properties": ["C06"],
